@@ -219,6 +219,8 @@ shrinks = c01.shrinks
 
 def finding_match(case, r, kind, why, findings):
     from . import c04
+    if not (why.startswith("oracle") or "partition" in why):
+        return None
     for f in findings:
         if f.get("matcher", {}).get("pred") == "all_intervals_below_threshold" and case["thr"] is not None and case["blanks"] \
                 and case["fam"] == "B":
